@@ -121,6 +121,19 @@ pub proof fn lemma_strz_is_longest(d: Seq<u8>, off: int, t: Seq<u8>, n: int)
     if n > t.len() { assert(d[off + t.len()] != 0); }
 }
 
+// two strs have the same bytes iff they have the same characters (UTF-8 encoding is injective: vstd's round-trip lemma)
+pub proof fn lemma_str_bytes_eq(a: &str, b: &str)
+    ensures (a.spec_bytes() == b.spec_bytes()) == (a@ == b@)
+{
+    assert(a.spec_bytes() == vstd::utf8::encode_utf8(a@));
+    assert(b.spec_bytes() == vstd::utf8::encode_utf8(b@));
+    vstd::utf8::encode_utf8_decode_utf8(a@); vstd::utf8::encode_utf8_decode_utf8(b@);
+}
+// the name stored at offset `off` of a string table is exactly `name` (valid UTF-8, same bytes)
+pub open spec fn name_is(strs: Seq<u8>, off: int, name: &str) -> bool {
+    strz_ok(strs, off) && vstd::utf8::valid_utf8(strz(strs, off)) && strz(strs, off) == name.spec_bytes()
+}
+
 // ---- A1: every slice has at most isize::MAX elements (language invariant)
 pub mod ax { use vstd::prelude::*; use vstd::std_specs::cmp::PartialEqSpec;
 pub broadcast proof fn lemma_subrange_subrange(s: Seq<u8>, a: int, b: int, c: int, d: int)
